@@ -405,7 +405,11 @@ XTypeReject ==
   /\ pc' = "cswitch" /\ status' = 400 /\ errname' = "invalid_field_type"
   /\ UNCHANGED <<cfg, pv, rv, wire, delivered, invoked, rwire, returned, cerr>>
 \* the method shapes of the exchanges (an MC module may replace XAttrs by a sample of XAttrsAll)
-XAttrsAll == {x \in AttrSpace : x.nest \in XNests}
+\* parts of the transport envelope (lib/Values.tla) this part does not cover yet: attributes Required in the HTTP mapping only
+\* (mode "treq"), optional / defaulted payload attributes behind a path parameter, map-valued query parameters, MapParams(),
+\* and the messages no generated encoder writes (value shape "nofield")
+XBeyond(x) == x.mode \notin Modes \/ (x.loc = "path" /\ x.mode # "required") \/ (x.nest \in QueryMapNests /\ x.loc = "query")
+XAttrsAll == {x \in AttrSpace : x.nest \in XNests /\ ~XBeyond(x)}
 XAttrs == XAttrsAll
 Idle == /\ pc = "encode" /\ wire = <<>> /\ delivered = <<>> /\ invoked = FALSE /\ status = 0 /\ errname = "none"
         /\ rwire = <<>> /\ returned = <<>> /\ cerr = "none"
@@ -428,6 +432,8 @@ XInitRes ==
   /\ pv = <<FixedVal>> /\ xflag = "none" /\ Idle
 \* (a raw request is what it is: the choices a generated client has when it encodes - HTTPTransport's WireChoices - do not exist)
 XNext == /\ (IF pc = "route" /\ \E i \in PIdx : wire[i].loc # "none" /\ Malformed(wire[i].v) THEN XTypeReject ELSE Next) /\ UNCHANGED xflag
+         /\ (pc = "pick" => /\ \A i \in DOMAIN cfg'.pa : ~XBeyond(cfg'.pa[i]) /\ (pv'[i] # Absent => pv'[i].s # "nofield")
+                             /\ \A j \in DOMAIN cfg'.ra : ~XBeyond(cfg'.ra[j]) /\ (rv'[j] # Absent => rv'[j].s # "nofield"))
          /\ (pc = "encode" /\ xflag \in {"null", "omit", "rd+omit"} => wire' = [i \in PIdx |-> ClientWire(cfg.pa[i], pv[i])])
 \* with several attributes per method (simulation) the exchange is drawn attribute by attribute by HTTPTransport's Init / Pick*
 XSpec == (IF NPA = 1 /\ NRA = 1 THEN (IF Family = "req" THEN XInit ELSE XInitRes) ELSE Init /\ xflag = "none")
